@@ -389,7 +389,7 @@ def check_quoted_consumed(run, f, cfg):
         if not grew:
             break
     run.ob("C04.R5", "quoted-census", True, "%d calls of Iden::quoted, each written out by the function that makes it" % n, cfg=cfg)
-    run.floor("C04.R5", "quoted-calls", n, 10, cfg)
+    run.floor("C04.R5", "quoted-calls", n, {"full": 10, "single": 5}, cfg)
 
 
 def check(run):
